@@ -11,6 +11,8 @@ HQ = [
     ("deg1w4_3x4", 4, [[0, 1, 2, 3], [0, 1], [1, 2]]),
 ]
 
+PAIR1X2 = ("pair1x2", 2, [[0, 1]])
+
 JOHNSON = ("johnson4x6", 6, [[0, 1, 3], [1, 2, 4], [0, 4, 5], [2, 3, 5]])
 
 
